@@ -1,0 +1,106 @@
+//go:build verif
+
+package signaling_rpc_server
+
+import (
+	"sort"
+	"strconv"
+	"strings"
+)
+
+// VerifPeer is a read-only copy of a serverPeerTracker (verification builds only).
+type VerifPeer struct {
+	Listening   bool
+	ListenNonce uint64
+	Wants       []string
+	Waiting     bool
+}
+
+// VerifSession is a read-only copy of a sessionTracker (verification builds only).
+type VerifSession struct {
+	PeerA, PeerB         string
+	Seqno                uint64
+	AttachedA, AttachedB bool
+	BoxA, BoxB           string
+	Waiting              bool
+}
+
+// VerifSnapshot is a read-only copy of the relay maps (verification builds only).
+type VerifSnapshot struct {
+	Peers    map[string]VerifPeer
+	Sessions []VerifSession
+}
+
+func verifBox(p *sessionPeerTracker) string {
+	if p == nil {
+		return "-"
+	}
+	o := func(v *uint64) string {
+		if v == nil {
+			return "_"
+		}
+		return strconv.FormatUint(*v, 10)
+	}
+	r := "_"
+	if p.recv != nil {
+		r = strconv.FormatUint(p.recv.GetSeqno(), 10)
+	}
+	return r + "/" + o(p.recvSent) + "/" + o(p.recvClear) + "/" + o(p.outAcked)
+}
+
+// VerifState returns a copy of the relay maps taken under the server mutex.
+// It only reads; it exists so that the verification harness can detect
+// quiescence and compare map sizes, epochs and listening flags with the model.
+func (s *Server) VerifState() VerifSnapshot {
+	s.mtx.Lock()
+	defer s.mtx.Unlock()
+	out := VerifSnapshot{Peers: make(map[string]VerifPeer, len(s.peers))}
+	for id, t := range s.peers {
+		w := make([]string, 0, len(t.wantPeers))
+		for q := range t.wantPeers {
+			w = append(w, q)
+		}
+		sort.Strings(w)
+		out.Peers[id] = VerifPeer{Listening: t.listening, ListenNonce: t.listenNonce, Wants: w, Waiting: t.wait != nil}
+	}
+	for k, t := range s.sessions {
+		out.Sessions = append(out.Sessions, VerifSession{
+			PeerA: k.peerA, PeerB: k.peerB, Seqno: t.seqno,
+			AttachedA: t.peerA != nil, AttachedB: t.peerB != nil,
+			BoxA: verifBox(t.peerA), BoxB: verifBox(t.peerB), Waiting: t.wait != nil,
+		})
+	}
+	sort.Slice(out.Sessions, func(i, j int) bool {
+		if out.Sessions[i].PeerA != out.Sessions[j].PeerA {
+			return out.Sessions[i].PeerA < out.Sessions[j].PeerA
+		}
+		return out.Sessions[i].PeerB < out.Sessions[j].PeerB
+	})
+	return out
+}
+
+// Fingerprint is a canonical string of the snapshot (for stability detection).
+func (v VerifSnapshot) Fingerprint() string {
+	var sb strings.Builder
+	ids := make([]string, 0, len(v.Peers))
+	for id := range v.Peers {
+		ids = append(ids, id)
+	}
+	sort.Strings(ids)
+	for _, id := range ids {
+		p := v.Peers[id]
+		sb.WriteString(id)
+		sb.WriteString(strconv.FormatBool(p.Listening))
+		sb.WriteString(strconv.FormatUint(p.ListenNonce, 10))
+		sb.WriteString(strings.Join(p.Wants, ","))
+		sb.WriteString(strconv.FormatBool(p.Waiting))
+		sb.WriteByte(';')
+	}
+	for _, s := range v.Sessions {
+		sb.WriteString(s.PeerA + "|" + s.PeerB + "|" + strconv.FormatUint(s.Seqno, 10))
+		sb.WriteString(strconv.FormatBool(s.AttachedA) + strconv.FormatBool(s.AttachedB))
+		sb.WriteString(s.BoxA + "|" + s.BoxB + strconv.FormatBool(s.Waiting))
+		sb.WriteByte(';')
+	}
+	return sb.String()
+}
